@@ -26,6 +26,11 @@ def run_property(prop, tier='quick', ctx=None, write=True, quiet=False):
         fn = RULES[rid]
         try:
             r = fn(ctx)
+            if getattr(r, 'deferred', None):
+                if r.findings:
+                    analysis_errors.append(f'{rid}: ' + '; '.join(r.deferred))      # the findings stand, the rest could not be vouched for
+                else:
+                    raise AnalysisError('; '.join(r.deferred))
             if r.instances == 0:
                 raise AnalysisError(f"rule {rid} examined zero instances (vacuous pass refused)")
             floor = spec.get('floors', {}).get(rid)
